@@ -1,8 +1,9 @@
 import Driver.GraphJson
 import SynKitModel.Repr
 import SynKitModel.Gml
+import SynKitModel.ReprOpt
 /-! Driver commands of property C10 (`repr.*`, `h.*`, `gml.*`, `spec.gml.*`). -/
-open Lean SynKit SynKit.Repr SynKit.Gml
+open Lean SynKit SynKit.Repr SynKit.Gml SynKit.ReprOpt
 namespace Driver.Repr
 
 def atomOfJson (j : Json) : Except String Atom := do
@@ -120,6 +121,36 @@ def handle : Driver.Handler := fun cmd j =>
   | "gml.construct" => some do
     pure (Driver.graphToJson (construct (← Driver.getGraph j "g") (← Driver.getGraph j "h")))
   | "gml.shape" => some do pure (toJson (decide (ItsShape (← Driver.getGraph j "its"))))
+  | "repr.molToGraphOpt" => some do
+    -- MolToGraph.transform with use_index_as_atom_map / drop_non_aam (SynKitModel/ReprOpt.lean)
+    match molToGraphOpt (← Driver.getBool j "useIndex") (← Driver.getBool j "drop") (← molOfJson (← j.getObjVal? "mol")) with
+    | .ok g => pure (Driver.graphToJson g)
+    | .error .valueError => pure (Json.mkObj [("err", "ValueError")])
+    | .error .collision => pure (errJson .unsupported)
+  | "h.explicitOpt" => some do
+    -- h_to_explicit(G, nodes, its); "nodes": [] stands for None
+    let g ← Driver.getGraph j "graph"
+    let ns ← (fromJson? (← j.getObjVal? "nodes") : Except String (List Nat))
+    if decide (HTyped g) && typesDomain g then pure (Driver.graphToJson (hToExplicitG g ns (← Driver.getBool j "its")))
+    else pure (errJson .unsupported)
+  | "h.implicitHydrogenReindex" => some do
+    let g ← Driver.getGraph j "graph"
+    let pres ← (fromJson? (← j.getObjVal? "preserve") : Except String (List Nat))
+    if !implDomain g then pure (errJson .keyError)
+    else if decide (HTyped g) then pure (Driver.graphToJson (implicitHydrogenReindex g pres)) else pure (errJson .unsupported)
+  | "gml.itsToGmlX" => some do
+    -- its_to_gml(its, core, rule_name, reindex, explicit_hydrogen)
+    let I ← Driver.getGraph j "its"
+    let I' := if (← Driver.getBool j "core") then getRc I else I
+    if !(labelDomain I && decide (HTyped I') && typesDomain I') then pure (errJson .unsupported)
+    else pure (ruleOut (itsToGmlX (← Driver.getBool j "core") (← Driver.getBool j "reindex") (← Driver.getBool j "explicit") I)
+                       ((Driver.getStr j "name").toOption.getD "rule"))
+  | "gml.smartToGmlX" => some do
+    let r ← Driver.getGraph j "r"; let p ← Driver.getGraph j "p"
+    let K := if (← Driver.getBool j "core") then getRc (construct r p) else construct r p
+    if !(labelDomain r && labelDomain p && decide (HTyped K) && typesDomain K) then pure (errJson .unsupported)
+    else pure (ruleOut (smartToGmlX (← Driver.getBool j "core") (← Driver.getBool j "reindex") (← Driver.getBool j "explicit") r p)
+                       ((Driver.getStr j "name").toOption.getD "rule"))
   | "spec.gml.ruleEq" => some do
     pure (toJson (ruleEqb (← Driver.getGraph j "a") (← Driver.getGraph j "b")))
   | _ => none
